@@ -26,13 +26,22 @@ def build(run):
         except Unsupported as ex_:
             run.add(undecided(f"term.{c}.is_monotonic/subset", str(ex_)))
     run.add(static("term/monotonic.classes", sorted(mono_src) == sorted(C.MONOTONIC), f"is_monotonic() is True for {sorted(mono_src)}; contracts: {sorted(C.MONOTONIC)}"))
-    for c in terms:
+    # the structural terms (an activated term, an aggregated fuzzy set) are terms as well: they do not declare themselves monotonic and refuse like the others
+    struct_mono = []
+    for c in sorted(structural):
+        try:
+            if c in src.subclasses("term", "Term") and is_monotonic_source(src, c):
+                struct_mono.append(c)
+        except Unsupported as ex_:
+            run.add(undecided(f"term.{c}.is_monotonic/subset", str(ex_)))
+    for c in terms + [c_ for c_ in sorted(structural) if c_ in src.subclasses("term", "Term")]:
         owner = src.resolve_method(c, "tsukamoto")[1]       # looked up through the MRO read from the source
         has = owner != "Term"
         own = src.has_func("term", f"{c}.tsukamoto")
-        run.add(static(f"term.{c}/tsukamoto.refuses_iff_not_monotonic", has == (c in mono_src) and (own or not has),
-                       f"{c}: tsukamoto resolves to {owner}.tsukamoto (own definition: {own}), is_monotonic()={c in mono_src}", fn=f"term.{c}.tsukamoto",
-                       meta={"replay": {"module": "contracts.terms", "func": "replay_refuses", "kwargs": {"cls": c, "monotonic": c in mono_src}, "vars": {}}}))
+        mono_c = c in mono_src or c in struct_mono
+        run.add(static(f"term.{c}/tsukamoto.refuses_iff_not_monotonic", has == mono_c and (own or not has),
+                       f"{c}: tsukamoto resolves to {owner}.tsukamoto (own definition: {own}), is_monotonic()={mono_c}", fn=f"term.{c}.tsukamoto",
+                       meta={"replay": {"module": "contracts.terms", "func": "replay_refuses", "kwargs": {"cls": c, "monotonic": mono_c}, "vars": {}}}))
     base = src.func("term", "Term.tsukamoto")
     run.under_contract("term", "Term.tsukamoto", base)
     body = [s for s in base.body if not (isinstance(s, ast.Expr) and isinstance(s.value, ast.Constant))]
